@@ -19,13 +19,19 @@ Theorem C14_even_spec :
 Proof. exact @even_spec_thm. Qed.
 Print Assumptions C14_even_spec.
 
-(* Tier S — the knees-as-markers variant: the same over the gaps of 0 :: knees ++ [n-1] *)
+(* Tier S — the knees-as-markers variant: the same over the gaps curve start .. first knee, consecutive knees,
+   last knee .. curve end; NO hypothesis — the empty knee set included (then the gaps are (0,n-1) and (n-1,n-1)) *)
 Theorem C14_even_knees_spec :
   forall (N : Num) (xs ys : list (T N)) (tx ty : T N) (knees : list nat) (ext : bool),
-  knees <> [] ->
   add_points_even_knees xs ys tx ty knees ext = even_spec_knees xs ys tx ty knees ext.
 Proof. exact @even_knees_spec_thm. Qed.
 Print Assumptions C14_even_knees_spec.
+
+(* the gaps are the consecutive pairs of 0 :: knees ++ [n-1] whenever there is a knee *)
+Theorem C14_knee_gaps : forall nl knees,
+  (knees <> [] -> knee_gaps nl knees = consecutive (0 :: knees ++ [nl])) /\ knee_gaps nl [] = [(0, nl); (nl, nl)].
+Proof. exact (fun nl knees => conj (knee_gaps_consecutive nl knees) (knee_gaps_nil nl)). Qed.
+Print Assumptions C14_knee_gaps.
 
 (* Tier S — every returned index is a valid curve index, for all inputs and every arithmetic *)
 Theorem C14_even_valid :
@@ -37,7 +43,7 @@ Print Assumptions C14_even_valid.
 
 Theorem C14_even_knees_valid :
   forall (N : Num) (xs ys : list (T N)) (tx ty : T N) (knees : list nat) (ext : bool) (res : list nat),
-  knees <> [] -> ND knees -> Forall (fun k => k < length xs) knees ->
+  1 <= length xs -> ND knees -> Forall (fun k => k < length xs) knees ->
   add_points_even_knees xs ys tx ty knees ext = Some res -> Forall (fun k => k < length xs) res.
 Proof. exact @even_knees_valid_thm. Qed.
 Print Assumptions C14_even_knees_valid.
@@ -79,5 +85,6 @@ Example C14_example :
   add_points_even ex_xs ex_ys 0.0625%float 0.125%float [0; 4; 8] (rows [0; 4; 8]) [1] false = Some [1; 2; 3; 4; 5; 6; 7; 8] /\
   add_points_even_knees ex_xs ex_ys 0.125%float 0.125%float [4] false = Some [2; 4; 6; 8] /\
   even_spec_knees ex_xs ex_ys 0.125%float 0.125%float [4] false = Some [2; 4; 6; 8] /\
-  add_points_even_knees ex_xs ex_ys 0.125%float 0.125%float [] false = None.
+  add_points_even_knees ex_xs ex_ys 0.125%float 0.125%float [] false = Some [2; 4; 6; 8] /\
+  add_points_even ex_xs ex_ys 0.125%float 0.125%float [0; 4; 8] (rows [0; 4; 8]) [] false = Some [2; 4; 6; 8].
 Proof. vm_compute. repeat split; reflexivity. Qed.
